@@ -892,6 +892,9 @@ class Engine:
             if self.stack.count(callee.name) >= 3:
                 return None
             return (callee, list(fargs))
+        if c[0] == "fn" and (self.facts is None or c[1] not in self.facts.fns):
+            # a function of another crate used as a function value (`for_each(drop)`, `map(char::is_numeric)`): an opaque call
+            return ("extern", c)
         return None
 
     def call_closure(self, path, bb, fval, fargs):
@@ -900,6 +903,14 @@ class Engine:
         tgt = self.closure_target(path, fval, fargs)
         if tgt is None:
             return None
+        if tgt[0] == "extern":
+            c = tgt[1]
+            name = c[2] or c[1]
+            if re.search(r"mem::drop(::<.*>)?$", str(name)):
+                return [(("unit",), path)]
+            ret = ("app", name, tuple(fargs))
+            path.events.append(("call", bb, name, tuple(fargs), ret, {}, self.fn.name, tuple(fargs)))
+            return [(ret, path)]
         callee, bound = tgt
         sub = Engine(callee, self.facts, self.model, cut_edges=callee.back_edges(), visit_limit=self.visit_limit,
                      max_paths=self.max_paths, depth=self.depth + 1, inline=self.inline, max_depth=self.max_depth, stack=self.stack, desugar=self.desugar)
@@ -935,7 +946,7 @@ class Engine:
         if depth > 4 or src[0] != "app" or len(src[2]) < 1:
             return [(base_item, path)]
         nm = str(src[1])
-        m = re.search(r"iter::Iterator>::(map|filter_map|filter|flat_map|enumerate|cloned|copied|by_ref|inspect)(::<.*>)?$", nm)
+        m = re.search(r"iter::Iterator>::(map|filter_map|filter|flat_map|enumerate|cloned|copied|by_ref|inspect|take_while)(::<.*>)?$", nm)
         if not m:
             return [(base_item, path)]
         meth = m.group(1)
@@ -982,7 +993,10 @@ class Engine:
             if f is None or self.closure_target(p, f, []) is None:
                 outs.append((("app", nm, (el,)), p))
                 continue
-            xa = ("ref", ("loc", el, ()), False) if meth == "filter" else el
+            if el == ("dead",) or el == ("stop",):
+                outs.append((el, p))
+                continue
+            xa = ("ref", ("loc", el, ()), False) if meth in ("filter", "take_while") else el
             rs = self.call_closure(p, bb, f, [xa])
             if rs is None:
                 outs.append((("app", nm, (el,)), p))
@@ -1004,6 +1018,19 @@ class Engine:
                         outs.append((None, pn))
                         self.assume(sp, ("isvar", r, "Some"), True)
                         outs.append((("field", ("downcast", r, "Some"), "0"), sp))
+                elif meth == "take_while":
+                    # the first element the predicate rejects is consumed and ends the iteration
+                    d = self.decide(sp, r)
+                    if r == ("bool", True) or d is True:
+                        outs.append((el, sp))
+                    elif r == ("bool", False) or d is False:
+                        outs.append((("stop",), sp))
+                    else:
+                        pn = sp.fork()
+                        self.assume(pn, r, False)
+                        outs.append((("stop",), pn))
+                        self.assume(sp, r, True)
+                        outs.append((el, sp))
                 else:   # filter
                     d = self.decide(sp, r)
                     if r == ("bool", True) or d is True:
@@ -1220,6 +1247,9 @@ class Engine:
                 if el == ("dead",):
                     outs.append(dead(pe))
                     continue
+                if el == ("stop",):
+                    outs.append(finish(pe, ("adt", RES, "Ok", (whole,)) if into_res else (("adt", OPT, "Some", (whole,)) if into_opt else whole)))
+                    continue
                 if into_res or into_opt:
                     good_v, bad_v = ("Ok", "Err") if into_res else ("Some", "None")
                     kv = self.known_variant(pe, el)
@@ -1317,6 +1347,9 @@ class Engine:
                     continue
                 if el == ("dead",):
                     outs.append(dead(pe))
+                    continue
+                if el == ("stop",):
+                    outs.append(finish(pe, exhausted))      # take_while ended the iteration
                     continue
                 item = el
                 xa = ("ref", ("loc", el, ()), False) if meth == "find" else el
